@@ -2,7 +2,9 @@ PROPERTY = "C15"
 LEVEL = "proof"
 LEAN_MODULES = ["CifModel.Props.C15"]
 REQUIRED = ["CifModel.C15_skip_depth_balanced", "CifModel.C15_skip_depth_nonneg", "CifModel.C15_skip_depth_cif", "CifModel.C15_stop_is_last", "CifModel.C15_end_ok", "CifModel.C15_positive_aborts", "CifModel.C15_skip_opens_region", "CifModel.C15_skipped_region_silent", "CifModel.C15_syntax_only_same_log", "CifModel.C15_value_mirror", "CifModel.C15_all_continue_mirror", "CifModel.C15_all_continue_mirror_parseCB", "CifModel.C15_stored_is_structural", "CifModel.C15_skip_semantics_rest", "CifModel.C15_unfiltered_is_denote", "CifModel.C15_result_nonneg", "CifModel.C15_positive_aborts_local",
-            "CifModel.C15_loop_start_local", "CifModel.C15_cex_loop_start_pinned", "CifModel.C15_loop_start_code_returned"]
+            "CifModel.C15_loop_start_local", "CifModel.C15_cex_loop_start_pinned", "CifModel.C15_loop_start_code_returned",
+            "CifModel.C15_stored_is_structural_any", "CifModel.C15_stop_semantics_store", "CifModel.C15_cut_extends_pruned",
+            "CifModel.C15_dup_all_continue_mirror"]
 GEN = ["ErrCodes"]
 FAMILIES = ["pcb"]
 TRUSTED_BASE = [
@@ -16,24 +18,39 @@ TRUSTED_BASE = [
     "lean/CifModel/Spec/Traversal.lean part 2 (Doc, tokensOf, docEvents, denote) as the meaning of the `_full` statements",
 ]
 ASSUMPTIONS = [
-    "documents are well-formed CIF 2.0 without duplicate block codes, frame codes or data names (so no error callback and "
-    "no DUP_* diagnostic is reachable); where the C would call the error callback the model stops with MALFORMED",
+    "documents are well-formed CIF 2.0 except that block codes, frame codes and data names (scalar items, loop headers) may "
+    "repeat (same or ASCII-case-variant spelling): the DUP_* diagnostics with an error callback that accepts are modelled "
+    "(Model/ParseCBDup.lean: parseCBD, run by the pcb driver and cross-checked there against parseCB on every case without a "
+    "diagnostic); for any other defect the model stops with MALFORMED (error recovery is property C12); a loop header that "
+    "loses ALL its names is outside",
     "handlers do not modify the CIF under construction",
     "default parse options (max_frame_depth clamps to 1: one level of save frames)",
 ]
 PARTIAL = [
-    "the document-level theorems (C15_all_continue_mirror, C15_stored_is_structural, C15_skip_semantics_rest) are about the "
-    "layout-free token sequence tokensOf d of a well-formed abstract document and, for the last two, about programs that only "
-    "continue or skip; whitespace/comment callbacks are covered by the token-sequence theorems and by the correspondence run",
+    "the document-level theorems (C15_all_continue_mirror, C15_stored_is_structural(_any), C15_skip_semantics_rest, "
+    "C15_stop_semantics_store) are about the layout-free token sequence tokensOf d of a well-formed abstract document; "
+    "whitespace/comment callbacks are covered by the token-sequence theorems and by the correspondence run.  The store is "
+    "characterised for EVERY program (C15_stop_semantics_store: pruned and cut at the stopping answer, cutDoc); the callback "
+    "LOG at document level is characterised declaratively only for all-continue programs (docEvents), for other programs it "
+    "is that of the structural interpreter xDoc",
     "C15_syntax_only_same_log assumes a handler program that does not look at the (NULL in syntax-only mode) handles and that "
     "the storing parse does not stop on a frame-nesting diagnostic (input not well-formed under the options)",
-    "duplicate block/frame codes and data names (DUP_* diagnostics) are outside the model",
+    "duplicate block/frame codes and data names (DUP_* diagnostics, accepting error callback): modelled (parseCBD), covered "
+    "by the correspondence run with an oracle that restates the recovery (reopen the existing block/frame: its handle goes to "
+    "the handlers, its content is what later names are checked against and added to; a duplicate scalar gets its data-name "
+    "callback and the error callback but no item handler and is not stored; a duplicate loop-header name is dropped from "
+    "loop_start / the loop, its values are parsed without item handler; header names are checked against the container "
+    "even while skipping, against the header itself even without a container) and, for all-continue handlers and documents "
+    "whose loop headers repeat nothing, by the theorem C15_dup_all_continue_mirror (callbacks = dupEvents, store = dupDenote; "
+    "Spec/TraversalDup.lean); duplicate loop-header names and duplicates under skipping / stopping programs are covered by the "
+    "model + correspondence only",
 ]
 LEVEL_TEXT = ("Proof about the executable token-level model ParseCB.parseCB. For all token sequences and all handler programs: "
               "skip_depth balance of every production, an END / error answer is the last callback and determines the result, "
               "SKIP answers open regions that are silent and store nothing, syntax-only mode = storing mode up to handles. For "
               "every well-formed abstract document over its token sequence: all-continue callbacks = document order events and "
-              "store = denotation; for skip-only programs store = denotation of the document with the bypassed sub-trees removed. "
+              "store = denotation; for EVERY program (skips, END, error codes) store = denotation of the document with the bypassed "
+              "sub-trees removed and cut at the stopping answer (cutDoc), return value = that answer if positive else CIF_OK. "
               "The model is tied to src/parser.c by differential execution in storing and syntax-only mode with an independent "
               "implementation-level oracle that restates C15.")
 LEVEL_NOTE = ("Document-level theorems are about layout-free token sequences (layout is covered by the token-sequence theorems and "
